@@ -37,7 +37,7 @@ theorem step_call {argc fip nlc : Nat} {ms : List Value} (h : CodeAt C i (.call 
 
 theorem step_retv {v : Value} {fr0 : Frame} (hmem : s0.mem.managed = []) (h : CodeAt C i (.retv :: rest)) :
     step C (mkS s0 i below locs (ops.push v) g l (fr0 :: fr)) =
-      .next { s0 with ip := fr0.ip, stack := below.push v, globals := g, last := l, frames := fr, bp := fr0.bp } := by
+      .next { s0 with ip := fr0.ip, stack := below.push v, globals := g, last := l, frames := fr, depth := fr.length, bp := fr0.bp } := by
   rw [step_exec h]
   have hsz : ¬ (below ++ locs ++ ops).size < below.size := by simp
   simp only [exec, mkS_stack, pop_frame, doReturn, mkS_frames, mkS_bp, hsz, ↓reduceIte, mkS_mem, hmem, List.isEmpty_nil]
@@ -46,7 +46,7 @@ theorem step_retv {v : Value} {fr0 : Frame} (hmem : s0.mem.managed = []) (h : Co
 
 theorem step_ret {fr0 : Frame} (hmem : s0.mem.managed = []) (h : CodeAt C i (.ret :: rest)) :
     step C (mkS s0 i below locs ops g l (fr0 :: fr)) =
-      .next { s0 with ip := fr0.ip, stack := below.push .null, globals := g, last := l, frames := fr, bp := fr0.bp } := by
+      .next { s0 with ip := fr0.ip, stack := below.push .null, globals := g, last := l, frames := fr, depth := fr.length, bp := fr0.bp } := by
   rw [step_exec h]
   have hsz : ¬ (below ++ locs ++ ops).size < below.size := by simp
   simp only [exec, mkS_stack, doReturn, mkS_frames, mkS_bp, hsz, ↓reduceIte, mkS_mem, hmem, List.isEmpty_nil]
